@@ -157,7 +157,9 @@ impl KsfSpec for argon2::Argon2<'static> {
         let m = param["m"].as_u64().ok_or("m")? as u32;
         let t = param["t"].as_u64().ok_or("t")? as u32;
         let p = param["p"].as_u64().ok_or("p")? as u32;
-        let params = argon2::Params::new(m, t, p, None).map_err(|e| format!("{e}"))?;
+        // "out": an explicitly configured output length (argon2::Params::output_len), absent = None
+        let out = param["out"].as_u64().map(|v| v as usize);
+        let params = argon2::Params::new(m, t, p, out).map_err(|e| format!("{e}"))?;
         let alg = match param["alg"].as_str().unwrap_or("id") {
             "d" => argon2::Algorithm::Argon2d,
             "i" => argon2::Algorithm::Argon2i,
@@ -302,6 +304,127 @@ impl<'de, G: KeGroup> serde::Deserialize<'de> for ExtKey<G> {
     fn deserialize<D: serde::Deserializer<'de>>(d: D) -> Result<Self, D::Error> {
         ext_gate_nofail("serde_deserialize");
         <PrivateKey<G> as serde::Deserialize>::deserialize(d).map(|inner| ExtKey { inner })
+    }
+}
+
+// ---------------------------------------------------------------------------------------------
+// SecretKey whose serialized form is a handle of a length unrelated to the group's scalar length
+// ---------------------------------------------------------------------------------------------
+
+thread_local! {
+    /// the "device" behind HndKey: handle index -> private key bytes
+    pub static VAULT: std::cell::RefCell<Vec<Vec<u8>>> = std::cell::RefCell::new(Vec::new());
+}
+
+/// Like `ExtKey`, but `SecretKey::Len` is `L`, not the group's `SkLen`: the serialized form is a
+/// reference into `VAULT` (little-endian index, then the filler byte 0x5A ^ i at position i).
+pub struct HndKey<G: KeGroup, L> {
+    inner: PrivateKey<G>,
+    _l: PhantomData<L>,
+}
+
+impl<G: KeGroup, L> Clone for HndKey<G, L> {
+    fn clone(&self) -> Self {
+        HndKey {
+            inner: self.inner.clone(),
+            _l: PhantomData,
+        }
+    }
+}
+
+pub type HndShort = generic_array::typenum::U12;
+pub type HndLong = generic_array::typenum::U80;
+
+/// store `raw` in the vault (if new) and return the `len`-byte handle that refers to it
+pub fn hnd_handle_for(raw: &[u8], len: usize) -> Vec<u8> {
+    let idx = VAULT.with(|v| {
+        let mut v = v.borrow_mut();
+        match v.iter().position(|k| k.as_slice() == raw) {
+            Some(i) => i,
+            None => {
+                v.push(raw.to_vec());
+                v.len() - 1
+            }
+        }
+    }) as u32;
+    let le = idx.to_le_bytes();
+    (0..len).map(|i| if i < 4 { le[i] } else { hnd_filler(i) }).collect()
+}
+
+pub fn hnd_filler(i: usize) -> u8 {
+    0x5A ^ (i as u8)
+}
+
+impl<G: KeGroup, L: ArrayLength<u8> + 'static> SecretKey<G> for HndKey<G, L> {
+    type Error = ExtErr;
+    type Len = L;
+
+    fn diffie_hellman(
+        &self,
+        pk: PublicKey<G>,
+    ) -> Result<GenericArray<u8, G::PkLen>, InternalError<Self::Error>> {
+        if let Some(e) = ext_gate("diffie_hellman") {
+            return Err(InternalError::Custom(e));
+        }
+        self.inner
+            .diffie_hellman(pk)
+            .map_err(InternalError::into_custom)
+    }
+
+    fn public_key(&self) -> Result<PublicKey<G>, InternalError<Self::Error>> {
+        if let Some(e) = ext_gate("public_key") {
+            return Err(InternalError::Custom(e));
+        }
+        self.inner.public_key().map_err(InternalError::into_custom)
+    }
+
+    fn serialize(&self) -> GenericArray<u8, Self::Len> {
+        ext_gate_nofail("serialize");
+        let raw = self.inner.serialize().to_vec();
+        GenericArray::clone_from_slice(&hnd_handle_for(&raw, L::USIZE))
+    }
+
+    fn deserialize(input: &[u8]) -> Result<Self, InternalError<Self::Error>> {
+        if let Some(e) = ext_gate("deserialize") {
+            return Err(InternalError::Custom(e));
+        }
+        if input.len() != L::USIZE {
+            return Err(InternalError::SizeError {
+                name: "handle",
+                len: L::USIZE,
+                actual_len: input.len(),
+            });
+        }
+        if input.iter().enumerate().skip(4).any(|(i, b)| *b != hnd_filler(i)) {
+            return Err(InternalError::InvalidByteSequence);
+        }
+        let idx = u32::from_le_bytes([input[0], input[1], input[2], input[3]]) as usize;
+        let raw = VAULT
+            .with(|v| v.borrow().get(idx).cloned())
+            .ok_or(InternalError::InvalidByteSequence)?;
+        PrivateKey::<G>::deserialize(&raw)
+            .map(|inner| HndKey {
+                inner,
+                _l: PhantomData,
+            })
+            .map_err(InternalError::into_custom)
+    }
+}
+
+impl<G: KeGroup, L> serde::Serialize for HndKey<G, L> {
+    fn serialize<S: serde::Serializer>(&self, s: S) -> Result<S::Ok, S::Error> {
+        ext_gate_nofail("serde_serialize");
+        serde::Serialize::serialize(&self.inner, s)
+    }
+}
+
+impl<'de, G: KeGroup, L> serde::Deserialize<'de> for HndKey<G, L> {
+    fn deserialize<D: serde::Deserializer<'de>>(d: D) -> Result<Self, D::Error> {
+        ext_gate_nofail("serde_deserialize");
+        <PrivateKey<G> as serde::Deserialize>::deserialize(d).map(|inner| HndKey {
+            inner,
+            _l: PhantomData,
+        })
     }
 }
 
